@@ -914,10 +914,31 @@ namespace chaiscript {
         const auto start = m_position;
         if (Id_()) {
           auto text = Position::str(start, m_position);
-          const auto text_hash = utility::hash(text);
+          auto text_hash = utility::hash(text);
 
           if (validate) {
             validate_object_name(text);
+          }
+
+          {
+            // the switch below dispatches on a 32 bit hash, which can collide:
+            // only the exact spelling of a word literal is that literal, anything else is an ordinary identifier
+            constexpr std::string_view word_literals[] = {"true", "false", "Infinity", "NaN", "__LINE__", "__FILE__", "__FUNC__", "__CLASS__", "_"};
+            bool is_word_literal = false;
+            for (const auto &word : word_literals) {
+              if (text == word) {
+                is_word_literal = true;
+              }
+            }
+            if (!is_word_literal) {
+              constexpr auto not_a_word_literal = utility::hash("");
+              static_assert(not_a_word_literal != utility::hash("true") && not_a_word_literal != utility::hash("false")
+                            && not_a_word_literal != utility::hash("Infinity") && not_a_word_literal != utility::hash("NaN")
+                            && not_a_word_literal != utility::hash("__LINE__") && not_a_word_literal != utility::hash("__FILE__")
+                            && not_a_word_literal != utility::hash("__FUNC__") && not_a_word_literal != utility::hash("__CLASS__")
+                            && not_a_word_literal != utility::hash("_"));
+              text_hash = not_a_word_literal;
+            }
           }
 
 #ifdef CHAISCRIPT_MSVC
